@@ -3,6 +3,7 @@
    time) against derivations over lexeme sequences.
    STATEMENTS MARKED (*FIXED*) MUST NOT CHANGE. *)
 From LLG Require Import Base Regex Lexer Earley.
+From LLG Require Import EarleyAgenda.
 
 (* derivation of a sequence of lexemes (terminals are single lexemes) *)
 Inductive lderives (g : grammar) : gsym -> list lexidx -> Prop :=
@@ -45,21 +46,908 @@ Definition wf_grammar (g : grammar) : Prop :=
   (forall alts rhs s, In alts (g_rules g) -> In rhs alts -> In s rhs ->
                       sym_ok g s /\ s <> NT (g_start g)).
 
+(* ====================================================================== *)
+(* mutual induction over derivations *)
+Scheme lderives_min := Minimality for lderives Sort Prop
+  with lderives_seq_min := Minimality for lderives_seq Sort Prop.
+Combined Scheme lderives_mutind from lderives_min, lderives_seq_min.
+
+Lemma lderives_seq_app g a x : lderives_seq g a x ->
+  forall b y, lderives_seq g b y -> lderives_seq g (a ++ b) (x ++ y).
+Proof.
+  induction 1 as [|s rest u v Hs Hr IH]; intros b y Hb; simpl; auto.
+  rewrite <- app_assoc. constructor; auto.
+Qed.
+
+Lemma lderives_seq_one g s u : lderives g s u -> lderives_seq g [s] u.
+Proof.
+  intros H. rewrite <- (app_nil_r u). constructor; auto. constructor.
+Qed.
+
+Lemma lderives_seq_split g a : forall b t, lderives_seq g (a ++ b) t ->
+  exists t1 t2, t = t1 ++ t2 /\ lderives_seq g a t1 /\ lderives_seq g b t2.
+Proof.
+  induction a as [|s a IH]; intros b t H; simpl in H.
+  - exists [], t. split; auto. split; auto. constructor.
+  - inversion H as [|s' rest u v Hs Hr]; subst.
+    destruct (IH _ _ Hr) as [t1 [t2 [E [H1 H2]]]]. subst v.
+    exists (u ++ t1), t2. rewrite app_assoc. split; auto. split; auto. constructor; auto.
+Qed.
+
+(* ====================================================================== *)
+(* nullable_set *)
+Section Nullable.
+Variable g : grammar.
+
+Definition nl_sound (nl : list bool) : Prop :=
+  forall n, nth (N.to_nat n) nl false = true -> lderives g (NT n) [].
+
+Lemma step_nth nl i :
+  nth i (nullable_step g nl) false =
+  existsb (fun rhs => forallb (sym_nullable nl) rhs) (nth i (g_rules g) []).
+Proof.
+  unfold nullable_step.
+  rewrite <- (map_nth (fun alts => existsb (fun rhs => forallb (sym_nullable nl) rhs) alts) (g_rules g) [] i).
+  reflexivity.
+Qed.
+
+Lemma seq_nullable_derives nl rhs :
+  nl_sound nl -> forallb (sym_nullable nl) rhs = true -> lderives_seq g rhs [].
+Proof.
+  intros Hs. induction rhs as [|s rhs IH]; intros H.
+  - constructor.
+  - simpl in H. apply andb_true_iff in H. destruct H as [H1 H2].
+    change (@nil lexidx) with (@nil lexidx ++ []). constructor; auto.
+    destruct s as [i|lx]; simpl in H1; [|discriminate]. apply Hs; exact H1.
+Qed.
+
+Lemma step_sound nl : nl_sound nl -> nl_sound (nullable_step g nl).
+Proof.
+  intros Hs n Hn. rewrite step_nth in Hn. apply existsb_exists in Hn.
+  destruct Hn as [rhs [Hin Hf]]. apply ld_nt with (rhs := rhs); auto.
+  eapply seq_nullable_derives; eauto.
+Qed.
+
+Lemma iter_sound fuel : forall nl, nl_sound nl -> nl_sound (nullable_iter fuel g nl).
+Proof.
+  induction fuel as [|f IH]; intros nl Hs; simpl; auto.
+  destruct (list_eqb Bool.eqb nl (nullable_step g nl)); auto.
+  apply IH. apply step_sound; auto.
+Qed.
+
+Lemma nth_map_false {A} (l : list A) i : nth i (map (fun _ => false) l) false = false.
+Proof.
+  revert i. induction l as [|x l IH]; intros i; destruct i; simpl; auto.
+Qed.
+
+Lemma init_sound : nl_sound (map (fun _ => false) (g_rules g)).
+Proof. intros n Hn. rewrite nth_map_false in Hn. discriminate. Qed.
+
+(* monotone iteration reaches a fixpoint *)
+Definition ble (a b : list bool) : Prop := forall i, nth i a false = true -> nth i b false = true.
+
+Fixpoint cnt (l : list bool) : nat :=
+  match l with [] => 0%nat | b :: l' => ((if b then 1 else 0) + cnt l')%nat end.
+
+Lemma cnt_le_length l : (cnt l <= length l)%nat.
+Proof. induction l as [|b l IH]; simpl; auto. destruct b; lia. Qed.
+
+Lemma list_eqb_bool_eq a : forall b, list_eqb Bool.eqb a b = true -> a = b.
+Proof.
+  induction a as [|x a IH]; intros [|y b] H; simpl in H; try discriminate; auto.
+  apply andb_true_iff in H. destruct H as [H1 H2]. apply Bool.eqb_prop in H1. subst.
+  f_equal. apply IH; auto.
+Qed.
+
+Lemma ble_cnt a : forall b, length a = length b -> ble a b ->
+  (cnt a <= cnt b)%nat /\ (list_eqb Bool.eqb a b = false -> (cnt a < cnt b)%nat).
+Proof.
+  induction a as [|x a IH]; intros [|y b] Hlen Hle; simpl in Hlen; try discriminate.
+  - simpl. split; auto. discriminate.
+  - assert (Hle' : ble a b). { intros i Hi. apply (Hle (S i)). exact Hi. }
+    assert (Hxy : x = true -> y = true). { intros Hx. apply (Hle 0%nat). exact Hx. }
+    destruct (IH b) as [H1 H2]; auto. simpl.
+    destruct x, y; simpl; try (specialize (Hxy eq_refl); discriminate).
+    + split; [lia|]. intros H. specialize (H2 H). lia.
+    + split; [lia|]. intros _. lia.
+    + split; [lia|]. intros H. specialize (H2 H). lia.
+Qed.
+
+Lemma sym_nullable_mono a b s : ble a b -> sym_nullable a s = true -> sym_nullable b s = true.
+Proof. intros Hle. destruct s as [i|lx]; simpl; auto. Qed.
+
+Lemma step_mono a b : ble a b -> ble (nullable_step g a) (nullable_step g b).
+Proof.
+  intros Hle i. rewrite !step_nth. intros H. apply existsb_exists in H.
+  destruct H as [rhs [Hin Hf]]. apply existsb_exists. exists rhs. split; auto.
+  rewrite forallb_forall in *. intros s Hs. eapply sym_nullable_mono; eauto.
+Qed.
+
+Lemma step_length nl : length (nullable_step g nl) = length (g_rules g).
+Proof. unfold nullable_step. apply map_length. Qed.
+
+Lemma iter_fix fuel : forall nl,
+  length nl = length (g_rules g) -> ble nl (nullable_step g nl) ->
+  (length (g_rules g) - cnt nl < fuel)%nat ->
+  nullable_step g (nullable_iter fuel g nl) = nullable_iter fuel g nl.
+Proof.
+  induction fuel as [|f IH]; intros nl Hlen Hle Hf; [lia|].
+  simpl. destruct (list_eqb Bool.eqb nl (nullable_step g nl)) eqn:E.
+  - apply list_eqb_bool_eq in E. symmetry. exact E.
+  - apply IH.
+    + apply step_length.
+    + apply step_mono. exact Hle.
+    + destruct (ble_cnt nl (nullable_step g nl)) as [_ H2]; auto.
+      { rewrite step_length. exact Hlen. }
+      specialize (H2 E). pose proof (cnt_le_length (nullable_step g nl)) as H3.
+      rewrite step_length in H3. lia.
+Qed.
+
+Lemma nullable_set_fix : nullable_step g (nullable_set g) = nullable_set g.
+Proof.
+  unfold nullable_set. apply iter_fix.
+  - apply map_length.
+  - intros i Hi. rewrite nth_map_false in Hi. discriminate.
+  - lia.
+Qed.
+
+Lemma nullable_set_sound : nl_sound (nullable_set g).
+Proof. unfold nullable_set. apply iter_sound. apply init_sound. Qed.
+
+Lemma fix_complete nl : nullable_step g nl = nl ->
+  (forall s ls, lderives g s ls -> ls = [] -> sym_nullable nl s = true) /\
+  (forall rhs ls, lderives_seq g rhs ls -> ls = [] -> forallb (sym_nullable nl) rhs = true).
+Proof.
+  intros Hfix. apply lderives_mutind.
+  - intros lx H. discriminate.
+  - intros n rhs ls Hin Hseq IH Hls. simpl. rewrite <- Hfix, step_nth.
+    apply existsb_exists. exists rhs. split; auto.
+  - auto.
+  - intros s rest u v Hs IHs Hr IHr Huv. apply app_eq_nil in Huv. destruct Huv as [Hu Hv].
+    simpl. rewrite IHs, IHr; auto.
+Qed.
+
+Lemma nullable_set_complete n : lderives g (NT n) [] -> nth (N.to_nat n) (nullable_set g) false = true.
+Proof.
+  intros H. destruct (fix_complete _ nullable_set_fix) as [H1 _].
+  apply (H1 _ _ H eq_refl).
+Qed.
+End Nullable.
+
 (*FIXED*) (* the nullable fixpoint is exact *)
 Theorem nullable_set_correct : forall g n,
   wf_grammar g -> (N.to_nat n < length (g_rules g))%nat ->
   (nth (N.to_nat n) (nullable_set g) false = true <-> lderives g (NT n) []).
-Proof. Admitted.
+Proof.
+  intros g n _ _. split.
+  - apply nullable_set_sound.
+  - apply nullable_set_complete.
+Qed.
+
+(* ====================================================================== *)
+(* list facts *)
+Definition sub (w : list lexidx) (i j : nat) : list lexidx := firstn (j - i) (skipn i w).
+
+Lemma firstn_skipn_add {A} (a b : nat) : forall l : list A,
+  firstn a l ++ firstn b (skipn a l) = firstn (a + b) l.
+Proof.
+  induction a as [|a IH]; intros l; simpl; auto.
+  destruct l as [|x l]; simpl.
+  - rewrite firstn_nil. reflexivity.
+  - rewrite IH. reflexivity.
+Qed.
+
+Lemma skipn_skipn' {A} (a b : nat) : forall l : list A, skipn a (skipn b l) = skipn (b + a) l.
+Proof.
+  induction b as [|b IH]; intros l; simpl; auto.
+  destruct l as [|x l]; simpl; auto. destruct a; reflexivity.
+Qed.
+
+Lemma sub_app w s m i : (s <= m)%nat -> (m <= i)%nat -> sub w s m ++ sub w m i = sub w s i.
+Proof.
+  intros H1 H2. unfold sub.
+  replace (skipn m w) with (skipn (m - s) (skipn s w)).
+  - rewrite firstn_skipn_add. f_equal. lia.
+  - rewrite skipn_skipn'. f_equal. lia.
+Qed.
+
+Lemma sub_nil w i : sub w i i = [].
+Proof. unfold sub. rewrite Nat.sub_diag. reflexivity. Qed.
+
+Lemma sub_one w : forall k l, nth_error w k = Some l -> sub w k (S k) = [l].
+Proof.
+  unfold sub. intros k l H. replace (S k - k)%nat with 1%nat by lia.
+  revert k H. induction w as [|x w IH]; intros k H; destruct k; simpl in *; try discriminate.
+  - inversion H; subst. destruct w; reflexivity.
+  - apply IH. exact H.
+Qed.
+
+Lemma sub_0 w n : sub w 0 n = firstn n w.
+Proof. unfold sub. rewrite Nat.sub_0_r. reflexivity. Qed.
+
+Lemma firstn_S_nth {A} (l : list A) : forall n x, nth_error l n = Some x ->
+  firstn (S n) l = firstn n l ++ [x].
+Proof.
+  induction l as [|y l IH]; intros n x H; destruct n; simpl in *; try discriminate.
+  - inversion H; subst. reflexivity.
+  - f_equal. apply IH. exact H.
+Qed.
+
+Lemma nth_error_split' {A} (l : list A) : forall n x, nth_error l n = Some x ->
+  l = firstn n l ++ x :: skipn (S n) l.
+Proof.
+  induction l as [|y l IH]; intros n x H; destruct n; simpl in *; try discriminate.
+  - inversion H; subst. reflexivity.
+  - f_equal. apply IH. exact H.
+Qed.
+
+Lemma last_nth_len {A} (d : A) : forall l n, length l = S n -> last l d = nth n l d.
+Proof.
+  induction l as [|x l IH]; intros n H; simpl in H; [discriminate|].
+  destruct l as [|y l].
+  - simpl in H. inversion H; subst. reflexivity.
+  - destruct n as [|n]; [simpl in H; discriminate|].
+    change (last (x :: y :: l) d) with (last (y :: l) d). rewrite (IH n); auto.
+Qed.
+
+Lemma In_optmap {A B} (f : A -> option B) l y :
+  In y (optmap f l) <-> exists x, In x l /\ f x = Some y.
+Proof.
+  induction l as [|x l IH]; simpl.
+  - split; [intros []|intros [x [[] _]]].
+  - destruct (f x) as [z|] eqn:E; simpl; rewrite IH; split.
+    + intros [H|[x' [H1 H2]]]; [subst; exists x; auto|exists x'; auto].
+    + intros [x' [[H1|H1] H2]]; [subst; left; congruence|right; exists x'; auto].
+    + intros [x' [H1 H2]]; exists x'; auto.
+    + intros [x' [[H1|H1] H2]]; [subst; congruence|exists x'; auto].
+Qed.
+
+Lemma NoDup_optmap {A B} (f : A -> option B) l :
+  (forall x x' y, f x = Some y -> f x' = Some y -> x = x') -> NoDup l -> NoDup (optmap f l).
+Proof.
+  intros Hinj Hnd. induction Hnd as [|x l Hx Hnd IH]; simpl; [constructor|].
+  destruct (f x) as [z|] eqn:E; auto. constructor; auto.
+  intros H. apply In_optmap in H. destruct H as [x' [H1 H2]].
+  assert (x = x') by (eapply Hinj; eauto). subst. auto.
+Qed.
+
+Lemma NoDup_map_inj {A B} (f : A -> B) l :
+  (forall x y, f x = f y -> x = y) -> NoDup l -> NoDup (map f l).
+Proof.
+  intros Hinj Hnd. induction Hnd as [|x l Hx Hnd IH]; simpl; constructor; auto.
+  intros H. apply in_map_iff in H. destruct H as [y [H1 H2]]. apply Hinj in H1. subst; auto.
+Qed.
+
+(* ====================================================================== *)
+(* rows *)
+Definition rowi (rows : list row) (k : nat) : list item := r_items (nth k rows dummy_row).
+
+Lemma rowi_app1 rows r k : (k < length rows)%nat -> rowi (rows ++ [r]) k = rowi rows k.
+Proof. intros H. unfold rowi. rewrite app_nth1; auto. Qed.
+
+Lemma rowi_app2 rows r : rowi (rows ++ [r]) (length rows) = r_items r.
+Proof. unfold rowi. rewrite app_nth2, Nat.sub_diag; auto. Qed.
+
+Lemma nth_app_last rows (r : row) : nth (length rows) (rows ++ [r]) dummy_row = r.
+Proof. rewrite app_nth2, Nat.sub_diag; auto. Qed.
+
+Definition scan_seed (g : grammar) (set : list lexidx) (top : list item) : list item :=
+  optmap (fun it => match after_dot g it with
+                    | Some (TM lx) => if existsb (N.eqb lx) set then Some (advance_dot it) else None
+                    | _ => None
+                    end) top.
+
+Lemma scan_row_unfold g nl sp rows0 top lexeme :
+  scan_row g nl sp (rows0 ++ [top]) lexeme =
+  close_row g nl (rows0 ++ [top]) (scan_seed g (lexemes_from_idx sp lexeme) (r_items top)) lexeme.
+Proof. unfold scan_row. rewrite rev_app_distr. reflexivity. Qed.
+
+Lemma rows_last_split (rows : list row) n : length rows = S n ->
+  exists rows0, rows = rows0 ++ [nth n rows dummy_row] /\ length rows0 = n.
+Proof.
+  intros Hlen. assert (Hne : rows <> []) by (intros ->; discriminate).
+  destruct (exists_last Hne) as [rows0 [top E]]. subst rows.
+  rewrite app_length in Hlen. simpl in Hlen. assert (length rows0 = n) by lia. subst n.
+  exists rows0. rewrite nth_app_last. auto.
+Qed.
+
+Lemma in_scan_seed g l top x :
+  In x (scan_seed g [l] top) <->
+  exists it, In it top /\ after_dot g it = Some (TM l) /\ x = advance_dot it.
+Proof.
+  unfold scan_seed. rewrite In_optmap. split.
+  - intros [it [Hin H]]. exists it. split; auto.
+    destruct (after_dot g it) as [[n|lx]|]; try discriminate. simpl in H.
+    destruct (lx =? l) eqn:E; simpl in H; try discriminate. apply N.eqb_eq in E. subst.
+    inversion H; auto.
+  - intros [it [Hin [Ha Hx]]]. exists it. split; auto. rewrite Ha. simpl.
+    rewrite N.eqb_refl. simpl. subst; auto.
+Qed.
+
+Lemma advance_dot_inj a b : advance_dot a = advance_dot b -> a = b.
+Proof.
+  destruct a, b. unfold advance_dot. simpl. intros H. inversion H. f_equal. lia.
+Qed.
+
+Lemma nodup_scan_seed g set top : NoDup top -> NoDup (scan_seed g set top).
+Proof.
+  intros H. unfold scan_seed. apply NoDup_optmap; auto.
+  intros x x' y Hx Hx'.
+  destruct (after_dot g x) as [[n|lx]|]; try discriminate.
+  destruct (existsb (N.eqb lx) set); try discriminate.
+  destruct (after_dot g x') as [[n'|lx']|]; try discriminate.
+  destruct (existsb (N.eqb lx') set); try discriminate.
+  inversion Hx; inversion Hx'; subst. apply advance_dot_inj. congruence.
+Qed.
+
+Lemma nt_alts_in g n rhs : In rhs (nt_alts g n) ->
+  In (nt_alts g n) (g_rules g) /\ (N.to_nat n < length (g_rules g))%nat.
+Proof.
+  unfold nt_alts. intros H.
+  destruct (Nat.lt_ge_cases (N.to_nat n) (length (g_rules g))) as [Hlt|Hge].
+  - split; auto. apply nth_In. exact Hlt.
+  - rewrite nth_overflow in H by exact Hge. destruct H.
+Qed.
+
+Lemma lenN_of_nat {A} (l : list A) : lenN l = N.of_nat (length l).
+Proof. reflexivity. Qed.
+
+(* ====================================================================== *)
+(* soundness invariant *)
+Section Sound.
+Variable g : grammar.
+Hypothesis Hwf : wf_grammar g.
+Variable w : list lexidx.
+Let nl := nullable_set g.
+
+Definition ctx (X : N) (s : nat) : Prop :=
+  exists delta, Forall (sym_ok g) delta /\
+    forall u t, lderives g (NT X) u -> lderives_seq g delta t ->
+                lderives g (NT (g_start g)) (firstn s w ++ u ++ t).
+
+Definition sinv (k : nat) (it : item) : Prop :=
+  In (item_rhs g it) (nt_alts g (it_nt it)) /\
+  (N.to_nat (it_dot it) <= length (item_rhs g it))%nat /\
+  (N.to_nat (it_start it) <= k)%nat /\
+  lderives_seq g (firstn (N.to_nat (it_dot it)) (item_rhs g it)) (sub w (N.to_nat (it_start it)) k) /\
+  (it_nt it = g_start g -> it_start it = 0) /\
+  ctx (it_nt it) (N.to_nat (it_start it)).
+
+Lemma sinv_advance m j it s :
+  sinv m it -> after_dot g it = Some s -> (m <= j)%nat -> lderives g s (sub w m j) ->
+  sinv j (advance_dot it).
+Proof.
+  intros [H1 [H2 [H3 [H4 [H5 H6]]]]] Had Hmj Hs.
+  destruct (after_dot_some_ok _ _ _ Had) as [_ Hlt].
+  unfold sinv. rewrite item_rhs_advance. unfold advance_dot at 1 2 3 4 5 6. cbn [it_nt it_alt it_dot it_start].
+  split; [|split; [|split; [|split; [|split]]]]; auto.
+  - lia.
+  - lia.
+  - replace (N.to_nat (it_dot it + 1)) with (S (N.to_nat (it_dot it))) by lia.
+    rewrite (firstn_S_nth _ _ _ Had).
+    rewrite <- (sub_app w (N.to_nat (it_start it)) m j) by lia.
+    apply lderives_seq_app; auto. apply lderives_seq_one; auto.
+Qed.
+
+Lemma sinv_complete k it :
+  sinv k it -> after_dot g it = None ->
+  lderives g (NT (it_nt it)) (sub w (N.to_nat (it_start it)) k).
+Proof.
+  intros [H1 [H2 [H3 [H4 _]]]] Had. unfold after_dot in Had. apply nth_error_None in Had.
+  rewrite firstn_all2 in H4 by lia. eapply ld_nt; eauto.
+Qed.
+
+Lemma sinv_rhs_wf k it s :
+  sinv k it -> In s (item_rhs g it) -> sym_ok g s /\ s <> NT (g_start g).
+Proof.
+  intros [H1 _] Hs. destruct Hwf as [_ Hw]. destruct (nt_alts_in _ _ _ H1) as [Hin _].
+  eapply Hw; eauto.
+Qed.
+
+Lemma sinv_predict k it n a :
+  sinv k it -> after_dot g it = Some (NT n) -> (a < length (nt_alts g n))%nat ->
+  sinv k (mk_item n (N.of_nat a) 0 (N.of_nat k)).
+Proof.
+  intros Hinv Had Ha. pose proof Hinv as [H1 [H2 [H3 [H4 [H5 H6]]]]].
+  assert (Hin : In (NT n) (item_rhs g it)) by (eapply nth_error_In; exact Had).
+  destruct (sinv_rhs_wf _ _ _ Hinv Hin) as [Hok Hne].
+  unfold sinv, item_rhs. cbn [it_nt it_alt it_dot it_start]. rewrite !Nat2N.id.
+  split; [|split; [|split; [|split; [|split]]]].
+  - apply nth_In. exact Ha.
+  - simpl. lia.
+  - lia.
+  - simpl. rewrite sub_nil. constructor.
+  - intros E. subst n. congruence.
+  - destruct H6 as [delta [Hd1 Hd2]].
+    exists (skipn (S (N.to_nat (it_dot it))) (item_rhs g it) ++ delta). split.
+    + apply Forall_app. split; auto. apply Forall_forall. intros s Hs.
+      eapply (sinv_rhs_wf k it); eauto.
+      rewrite <- (firstn_skipn (S (N.to_nat (it_dot it))) (item_rhs g it)). apply in_app_iff. auto.
+    + intros u t Hu Ht. apply lderives_seq_split in Ht. destruct Ht as [t1 [t2 [Et [Ht1 Ht2]]]]. subst t.
+      assert (HX : lderives g (NT (it_nt it)) (sub w (N.to_nat (it_start it)) k ++ u ++ t1)).
+      { apply ld_nt with (rhs := item_rhs g it); auto.
+        rewrite (nth_error_split' _ _ _ Had) at 1.
+        apply lderives_seq_app; auto. constructor; auto. }
+      specialize (Hd2 _ _ HX Ht2).
+      replace (firstn k w ++ u ++ t1 ++ t2)
+        with (firstn (N.to_nat (it_start it)) w ++ (sub w (N.to_nat (it_start it)) k ++ u ++ t1) ++ t2); auto.
+      rewrite <- (sub_0 w k), <- (sub_0 w (N.to_nat (it_start it))).
+      rewrite <- (sub_app w 0 (N.to_nat (it_start it)) k) by lia.
+      rewrite <- !app_assoc. reflexivity.
+Qed.
+
+Lemma sinv_initial a : (a < length (nt_alts g (g_start g)))%nat ->
+  sinv 0 (mk_item (g_start g) (N.of_nat a) 0 0).
+Proof.
+  intros Ha. unfold sinv, item_rhs. cbn [it_nt it_alt it_dot it_start]. rewrite !Nat2N.id.
+  split; [|split; [|split; [|split; [|split]]]]; auto.
+  - apply nth_In. exact Ha.
+  - simpl. lia.
+  - simpl. rewrite sub_nil. constructor.
+  - exists []. split; [constructor|]. intros u t Hu Ht. inversion Ht; subst.
+    simpl. rewrite app_nil_r. exact Hu.
+Qed.
+
+Definition rows_sinv (rows : list row) : Prop :=
+  forall k, (k < length rows)%nat ->
+            rowi rows k <> [] /\ forall it, In it (rowi rows k) -> sinv k it.
+
+Lemma sinv_added rb it x :
+  rows_sinv rb -> sinv (length rb) it -> added g nl rb (lenN rb) it x -> sinv (length rb) x.
+Proof.
+  intros Hrb Hinv. unfold added. destruct (after_dot g it) as [[n|lx]|] eqn:Had.
+  - intros [H|[Hn Hx]].
+    + apply in_initial_items in H. destruct H as [a [Ha Hx]]. subst x.
+      rewrite lenN_of_nat. eapply sinv_predict; eauto.
+    + subst x. apply (sinv_advance (length rb) (length rb) it (NT n)); auto.
+      rewrite sub_nil. apply nullable_set_sound. exact Hn.
+  - intros [].
+  - intros [Hlt [it' [Hin [Had' Hx]]]]. subst x. rewrite lenN_of_nat in Hlt.
+    assert (Hs : (N.to_nat (it_start it) < length rb)%nat) by lia.
+    destruct (Hrb _ Hs) as [_ Hr]. specialize (Hr it' Hin).
+    apply (sinv_advance (N.to_nat (it_start it)) (length rb) it' (NT (it_nt it))); auto; [lia|].
+    apply sinv_complete; auto.
+Qed.
+
+Lemma close_row_nonempty nl' rb seed lexeme r :
+  close_row g nl' rb seed lexeme = Some r -> r_items r <> [].
+Proof.
+  unfold close_row. destruct (agenda _ _ _ _ _ _ _ _) as [its al].
+  destruct its; [discriminate|]. intros H; inversion H; subst. simpl. discriminate.
+Qed.
+
+Lemma close_row_sinv rb seed lexeme r :
+  rows_sinv rb -> (forall x, In x seed -> sinv (length rb) x) ->
+  close_row g nl rb seed lexeme = Some r ->
+  rows_sinv (rb ++ [r]).
+Proof.
+  intros Hrb Hseed Hc k Hk. rewrite app_length in Hk. simpl in Hk.
+  destruct (Nat.eq_dec k (length rb)) as [->|Hne].
+  - rewrite rowi_app2. split; [eapply close_row_nonempty; eauto|].
+    apply (close_row_min g nl rb seed lexeme r (sinv (length rb))); auto.
+    intros it x Hit Hadd. eapply sinv_added; eauto.
+  - rewrite rowi_app1 by lia. apply Hrb. lia.
+Qed.
+
+Variable sp : lexspec.
+
+Lemma run_sinv : forall rest done rows rows',
+  w = done ++ rest -> length rows = S (length done) -> rows_sinv rows ->
+  earley_run g nl sp rows rest = Some rows' ->
+  length rows' = S (length w) /\ rows_sinv rows'.
+Proof.
+  induction rest as [|l rest IH]; intros done rows rows' Hw Hlen Hinv Hrun.
+  - simpl in Hrun. inversion Hrun; subst rows'. rewrite app_nil_r in Hw. subst. auto.
+  - simpl in Hrun. destruct (scan_row g nl sp rows (MLSingle l)) as [r|] eqn:Hscan; [|discriminate].
+    destruct (rows_last_split rows _ Hlen) as [rows0 [Erows Hl0]].
+    rewrite Erows in Hscan at 1. rewrite scan_row_unfold in Hscan. rewrite <- Erows in Hscan.
+    apply (IH (done ++ [l]) (rows ++ [r])); auto.
+    + rewrite <- app_assoc. exact Hw.
+    + rewrite !app_length. simpl. lia.
+    + eapply close_row_sinv; eauto.
+      intros x Hx. simpl in Hx. apply in_scan_seed in Hx. destruct Hx as [it [Hin [Had Hx]]]. subst x.
+      destruct (Hinv (length done)) as [_ Hr]; [lia|]. specialize (Hr it Hin).
+      rewrite Hlen. apply (sinv_advance (length done) (S (length done)) it (TM l)); auto.
+      rewrite (sub_one w (length done) l); [constructor|].
+      rewrite Hw. rewrite nth_error_app2, Nat.sub_diag; auto.
+Qed.
+
+Lemma initial_row_sinv r0 : initial_row g nl = Some r0 -> rows_sinv [r0].
+Proof.
+  intros H. unfold initial_row in H.
+  apply (close_row_sinv [] _ _ r0) in H; auto.
+  - intros k Hk. simpl in Hk. lia.
+  - intros x Hx. apply in_initial_items in Hx. destruct Hx as [a [Ha Hx]]. subst x.
+    apply sinv_initial. exact Ha.
+Qed.
+End Sound.
 
 (*FIXED*) (* soundness: whatever the recogniser accepts is derivable *)
 Theorem earley_sound : forall g sp ls,
   wf_grammar g -> earley_accepts g sp ls = true -> lderives g (NT (g_start g)) ls.
-Proof. Admitted.
+Proof.
+  intros g sp ls Hwf Hacc. unfold earley_accepts in Hacc.
+  destruct (initial_row g (nullable_set g)) as [r0|] eqn:Hinit; [|discriminate].
+  destruct (earley_run g (nullable_set g) sp [r0] ls) as [rows|] eqn:Hrun; [|discriminate].
+  pose proof (initial_row_sinv g Hwf ls r0 Hinit) as H0.
+  destruct (run_sinv g Hwf ls sp ls [] [r0] rows) as [Hlen Hinv]; auto.
+  rewrite (last_nth_len _ rows (length ls)) in Hacc by exact Hlen.
+  unfold row_is_accepting in Hacc. apply existsb_exists in Hacc. destruct Hacc as [it [Hin Hit]].
+  destruct (after_dot g it) eqn:Had; [discriminate|]. apply N.eqb_eq in Hit.
+  destruct (Hinv (length ls)) as [_ Hr]; [lia|]. specialize (Hr it Hin).
+  pose proof (sinv_complete g ls _ _ Hr Had) as Hd.
+  destruct Hr as [_ [_ [_ [_ [H5 _]]]]]. rewrite (H5 Hit) in Hd. rewrite Hit in Hd.
+  change (N.to_nat 0) with 0%nat in Hd. rewrite sub_0, firstn_all in Hd. exact Hd.
+Qed.
+
+(* ====================================================================== *)
+(* completeness: closed charts *)
+Section Chart.
+Variable g : grammar.
+Variable nl : list bool.
+
+Record good (w : list lexidx) (rows : list row) : Prop := mk_good {
+  gd_ok : forall k it, (k < length rows)%nat -> In it (rowi rows k) -> ok g (N.of_nat k) it;
+  gd_nodup : forall k, (k < length rows)%nat -> NoDup (rowi rows k);
+  gd_pred : forall k it n, (k < length rows)%nat -> In it (rowi rows k) ->
+      after_dot g it = Some (NT n) ->
+      (forall a, (a < length (nt_alts g n))%nat ->
+                 In (mk_item n (N.of_nat a) 0 (N.of_nat k)) (rowi rows k)) /\
+      (nth (N.to_nat n) nl false = true -> In (advance_dot it) (rowi rows k));
+  gd_comp : forall k it it', (k < length rows)%nat -> In it (rowi rows k) ->
+      after_dot g it = None -> (N.to_nat (it_start it) < k)%nat ->
+      In it' (rowi rows (N.to_nat (it_start it))) -> after_dot g it' = Some (NT (it_nt it)) ->
+      In (advance_dot it') (rowi rows k);
+  gd_scan : forall k it lx, (S k < length rows)%nat -> In it (rowi rows k) ->
+      after_dot g it = Some (TM lx) -> nth_error w k = Some lx ->
+      In (advance_dot it) (rowi rows (S k));
+  gd_allowed : forall k lx, (k < length rows)%nat ->
+      (In lx (r_allowed (nth k rows dummy_row)) <->
+       exists it, In it (rowi rows k) /\ after_dot g it = Some (TM lx))
+}.
+
+Lemma good_rb_ok w rows : good w rows -> rb_ok rows (lenN rows).
+Proof.
+  intros Hg r it Hr Hit. apply (In_nth _ _ dummy_row) in Hr. destruct Hr as [k [Hk Er]].
+  assert (Hok : ok g (N.of_nat k) it). { eapply gd_ok; eauto. unfold rowi. rewrite Er. exact Hit. }
+  destruct Hok as [_ [_ Hs]]. rewrite lenN_of_nat. lia.
+Qed.
+
+(* appending a row built by close_row from a duplicate-free in-range seed that
+   contains the scan successors of the last row *)
+Lemma good_snoc w rows seed lexeme r :
+  good w rows ->
+  NoDup seed -> (forall x, In x seed -> ok g (lenN rows) x) ->
+  (forall k it lx, S k = length rows -> In it (rowi rows k) -> after_dot g it = Some (TM lx) ->
+                   nth_error w k = Some lx -> In (advance_dot it) seed) ->
+  close_row g nl rows seed lexeme = Some r ->
+  good w (rows ++ [r]).
+Proof.
+  intros Hg Hnd Hok Hscan Hc.
+  pose proof (close_row_incl _ _ _ _ _ _ Hc) as Hincl.
+  destruct (close_row_spec g nl rows seed lexeme r Hnd Hok (good_rb_ok _ _ Hg) Hc) as [C1 [C2 [C3 C4]]].
+  assert (Hlen : length (rows ++ [r]) = S (length rows)) by (rewrite app_length; simpl; lia).
+  constructor.
+  - intros k it Hk Hin. rewrite Hlen in Hk. destruct (Nat.eq_dec k (length rows)) as [->|Hne].
+    + rewrite rowi_app2 in Hin. apply C2. exact Hin.
+    + rewrite rowi_app1 in Hin by lia. eapply gd_ok; eauto. lia.
+  - intros k Hk. rewrite Hlen in Hk. destruct (Nat.eq_dec k (length rows)) as [->|Hne].
+    + rewrite rowi_app2. exact C1.
+    + rewrite rowi_app1 by lia. eapply gd_nodup; eauto. lia.
+  - intros k it n Hk Hin Had. rewrite Hlen in Hk. destruct (Nat.eq_dec k (length rows)) as [->|Hne].
+    + rewrite rowi_app2 in *. split.
+      * intros a Ha. apply (C3 it); auto. unfold added. rewrite Had. left.
+        apply in_initial_items. exists a. split; auto.
+      * intros Hn. apply (C3 it); auto. unfold added. rewrite Had. right. auto.
+    + rewrite rowi_app1 in * by lia. eapply gd_pred; eauto. lia.
+  - intros k it it' Hk Hin Had Hs Hin' Had'. rewrite Hlen in Hk.
+    rewrite rowi_app1 in Hin' by lia.
+    destruct (Nat.eq_dec k (length rows)) as [->|Hne].
+    + rewrite rowi_app2 in *. apply (C3 it); auto. unfold added. rewrite Had. split.
+      * rewrite lenN_of_nat. lia.
+      * exists it'. auto.
+    + rewrite rowi_app1 in * by lia. eapply gd_comp; eauto. lia.
+  - intros k it lx Hk Hin Had Hw. rewrite Hlen in Hk. rewrite rowi_app1 in Hin by lia.
+    destruct (Nat.eq_dec (S k) (length rows)) as [He|Hne].
+    + rewrite He, rowi_app2. apply Hincl. eapply Hscan; eauto.
+    + rewrite rowi_app1 by lia. eapply gd_scan; eauto. lia.
+  - intros k lx Hk. rewrite Hlen in Hk. destruct (Nat.eq_dec k (length rows)) as [->|Hne].
+    + rewrite rowi_app2, nth_app_last. apply C4.
+    + rewrite rowi_app1 by lia. rewrite app_nth1 by lia. eapply gd_allowed; eauto. lia.
+Qed.
+
+Lemma good_nil w : good w [].
+Proof.
+  constructor; simpl; intros; lia.
+Qed.
+
+Lemma nodup_initial_items n k c : NoDup (initial_items n k c).
+Proof.
+  unfold initial_items. apply NoDup_map_inj; [|apply NoDup_seqN].
+  intros x y H. inversion H; auto.
+Qed.
+
+Lemma good_initial w r0 : initial_row g nl = Some r0 -> good w [r0].
+Proof.
+  intros H. unfold initial_row in H. change [r0] with ([] ++ [r0]).
+  eapply good_snoc; eauto.
+  - apply good_nil.
+  - apply nodup_initial_items.
+  - intros x Hx. apply in_initial_items in Hx. destruct Hx as [a [Ha Hx]]. subst x.
+    unfold ok, item_rhs. cbn [it_nt it_alt it_dot it_start]. rewrite Nat2N.id.
+    split; [|split]; auto. simpl. lia. unfold lenN. simpl. lia.
+  - intros k it lx Hk. simpl in Hk. discriminate.
+Qed.
+
+Lemma good_scan w sp rows l r :
+  good w rows -> rows <> [] -> nth_error w (length rows - 1) = Some l ->
+  scan_row g nl sp rows (MLSingle l) = Some r ->
+  good w (rows ++ [r]).
+Proof.
+  intros Hg Hne Hw Hscan.
+  destruct (length rows) as [|n] eqn:Hlen; [destruct rows; [congruence|discriminate]|].
+  destruct (rows_last_split rows n Hlen) as [rows0 [Erows Hl0]].
+  rewrite Erows in Hscan at 1. rewrite scan_row_unfold in Hscan. rewrite <- Erows in Hscan.
+  simpl in Hscan. replace (S n - 1)%nat with n in Hw by lia.
+  eapply good_snoc; eauto.
+  - apply nodup_scan_seed. apply (gd_nodup _ _ Hg n). lia.
+  - intros x Hx. apply in_scan_seed in Hx. destruct Hx as [it [Hin [Had Hx]]]. subst x.
+    eapply advance_ok; eauto.
+    assert (Hok : ok g (N.of_nat n) it) by (eapply gd_ok; eauto; lia).
+    destruct Hok as [_ [_ Hs]]. rewrite lenN_of_nat. lia.
+  - intros k it lx Hk Hin Had Hwk. rewrite Hlen in Hk. inversion Hk; subst k.
+    rewrite Hw in Hwk. inversion Hwk; subst lx.
+    apply in_scan_seed. exists it. auto.
+Qed.
+
+(* ---------- the completion lemma on a closed chart ---------- *)
+Section Closed.
+Variable w : list lexidx.
+Variable rows : list row.
+Hypothesis Hg : good w rows.
+Hypothesis Hnl : forall n, lderives g (NT n) [] -> nth (N.to_nat n) nl false = true.
+
+Lemma chart_complete :
+  (forall s u, lderives g s u ->
+     forall it p q, w = p ++ u ++ q -> (length p + length u < length rows)%nat ->
+       In it (rowi rows (length p)) -> after_dot g it = Some s ->
+       In (advance_dot it) (rowi rows (length p + length u))) /\
+  (forall rhs v, lderives_seq g rhs v ->
+     forall it pre p q, w = p ++ v ++ q -> (length p + length v < length rows)%nat ->
+       In it (rowi rows (length p)) -> item_rhs g it = pre ++ rhs ->
+       length pre = N.to_nat (it_dot it) ->
+       In (mk_item (it_nt it) (it_alt it) (it_dot it + N.of_nat (length rhs)) (it_start it))
+          (rowi rows (length p + length v))).
+Proof.
+  apply lderives_mutind.
+  - (* terminal *)
+    intros lx it p q Hw Hlen Hin Had. simpl in Hlen.
+    replace (length p + length [lx])%nat with (S (length p)) by (simpl; lia).
+    eapply gd_scan; eauto; [lia|].
+    rewrite Hw. rewrite nth_error_app2, Nat.sub_diag; auto.
+  - (* nonterminal *)
+    intros n rhs ls Hrhs Hseq IH it p q Hw Hlen Hin Had.
+    destruct (In_nth _ _ [] Hrhs) as [a [Ha Enth]].
+    destruct (gd_pred _ _ Hg (length p) it n) as [Hp1 Hp2]; auto; [lia|].
+    specialize (Hp1 a Ha).
+    destruct ls as [|l0 ls'].
+    + (* empty span: advanced at prediction time *)
+      simpl. rewrite Nat.add_0_r. apply Hp2. apply Hnl. eapply ld_nt; eauto.
+    + set (ls := l0 :: ls') in *.
+      specialize (IH (mk_item n (N.of_nat a) 0 (N.of_nat (length p))) [] p q Hw Hlen Hp1).
+      unfold item_rhs in IH. cbn [it_nt it_alt it_dot it_start] in IH. rewrite Nat2N.id in IH.
+      specialize (IH Enth eq_refl).
+      eapply (gd_comp _ _ Hg (length p + length ls)%nat _ it) in IH; eauto.
+      * unfold after_dot, item_rhs. cbn [it_nt it_alt it_dot it_start]. rewrite Nat2N.id, Enth.
+        apply nth_error_None. lia.
+      * cbn [it_start]. rewrite Nat2N.id. unfold ls. simpl. lia.
+      * cbn [it_start]. rewrite Nat2N.id. exact Hin.
+  - (* nil *)
+    intros it pre p q Hw Hlen Hin Hrhs Hpre. simpl. rewrite Nat.add_0_r, N.add_0_r.
+    destruct it; exact Hin.
+  - (* cons *)
+    intros s rest u v Hs IHs Hr IHr it pre p q Hw Hlen Hin Hrhs Hpre.
+    rewrite app_length in Hlen.
+    assert (Had : after_dot g it = Some s).
+    { unfold after_dot. rewrite Hrhs, <- Hpre. rewrite nth_error_app2, Nat.sub_diag; auto. }
+    assert (Hadv : In (advance_dot it) (rowi rows (length p + length u))).
+    { apply (IHs it p (v ++ q)); auto; [|lia]. rewrite Hw, <- !app_assoc. reflexivity. }
+    specialize (IHr (advance_dot it) (pre ++ [s]) (p ++ u) q).
+    rewrite app_length in IHr. rewrite item_rhs_advance in IHr.
+    unfold advance_dot in IHr at 2 3 4 5 6. cbn [it_nt it_alt it_dot it_start] in IHr.
+    replace (it_dot it + N.of_nat (length (s :: rest))) with (it_dot it + 1 + N.of_nat (length rest))
+      by (simpl length; lia).
+    replace (length p + length (u ++ v))%nat with (length p + length u + length v)%nat
+      by (rewrite app_length; lia).
+    apply IHr; auto.
+    + rewrite Hw, <- !app_assoc. reflexivity.
+    + lia.
+    + rewrite Hrhs, <- app_assoc. reflexivity.
+    + rewrite app_length. simpl. lia.
+Qed.
+
+(* the viable-prefix lemma: the next lexeme of a derivation in progress is
+   expected by the last row of the chart *)
+Lemma app_eq_app_mid {A} (u : list A) : forall v u1 l u2,
+  u ++ v = u1 ++ l :: u2 ->
+  (exists u2', u = u1 ++ l :: u2' /\ u2 = u2' ++ v) \/
+  (exists v1, u1 = u ++ v1 /\ v = v1 ++ l :: u2).
+Proof.
+  induction u as [|x u IH]; intros v u1 l u2 H.
+  - right. exists u1. auto.
+  - destruct u1 as [|y u1]; simpl in H.
+    + inversion H; subst. left. exists u. auto.
+    + inversion H as [[Hxy H']]. subst y. destruct (IH _ _ _ _ H') as [[u2' [E1 E2]]|[v1 [E1 E2]]].
+      * left. exists u2'. subst. auto.
+      * right. exists v1. subst. auto.
+Qed.
+
+Lemma chart_viable :
+  (forall s u, lderives g s u ->
+     forall it p u1 l u2 q, u = u1 ++ l :: u2 -> w = p ++ u1 ++ q ->
+       S (length p + length u1) = length rows ->
+       In it (rowi rows (length p)) -> after_dot g it = Some s ->
+       exists it', In it' (rowi rows (length p + length u1)) /\ after_dot g it' = Some (TM l)) /\
+  (forall rhs v, lderives_seq g rhs v ->
+     forall it pre p u1 l u2 q, v = u1 ++ l :: u2 -> w = p ++ u1 ++ q ->
+       S (length p + length u1) = length rows ->
+       In it (rowi rows (length p)) -> item_rhs g it = pre ++ rhs ->
+       length pre = N.to_nat (it_dot it) ->
+       exists it', In it' (rowi rows (length p + length u1)) /\ after_dot g it' = Some (TM l)).
+Proof.
+  apply lderives_mutind.
+  - intros lx it p u1 l u2 q Hu Hw Hlen Hin Had.
+    destruct u1 as [|x u1]; simpl in Hu.
+    + inversion Hu; subst. exists it. simpl. rewrite Nat.add_0_r. auto.
+    + inversion Hu as [[Hx H']]. destruct u1; discriminate.
+  - intros n rhs ls Hrhs Hseq IH it p u1 l u2 q Hu Hw Hlen Hin Had.
+    destruct (In_nth _ _ [] Hrhs) as [a [Ha Enth]].
+    destruct (gd_pred _ _ Hg (length p) it n) as [Hp1 _]; auto; [lia|].
+    specialize (Hp1 a Ha).
+    apply (IH (mk_item n (N.of_nat a) 0 (N.of_nat (length p))) [] p u1 l u2 q); auto.
+    unfold item_rhs. cbn [it_nt it_alt]. rewrite Nat2N.id. exact Enth.
+  - intros it pre p u1 l u2 q Hv. destruct u1; discriminate.
+  - intros s rest u v Hs IHs Hr IHr it pre p u1 l u2 q Huv Hw Hlen Hin Hrhs Hpre.
+    assert (Had : after_dot g it = Some s).
+    { unfold after_dot. rewrite Hrhs, <- Hpre. rewrite nth_error_app2, Nat.sub_diag; auto. }
+    destruct (app_eq_app_mid _ _ _ _ _ Huv) as [[u2' [E1 E2]]|[v1 [E1 E2]]].
+    + apply (IHs it p u1 l u2' q); auto.
+    + subst u1. rewrite app_length in *.
+      assert (Hadv : In (advance_dot it) (rowi rows (length p + length u))).
+      { destruct chart_complete as [Hc _]. apply (Hc s u Hs it p (v1 ++ q)); auto; [|lia].
+        rewrite Hw, <- !app_assoc. reflexivity. }
+      destruct (IHr (advance_dot it) (pre ++ [s]) (p ++ u) v1 l u2 q) as [it' [Hi' Ha']]; auto.
+      * rewrite Hw, <- !app_assoc. reflexivity.
+      * rewrite app_length. lia.
+      * rewrite app_length. exact Hadv.
+      * rewrite item_rhs_advance, Hrhs, <- app_assoc. reflexivity.
+      * rewrite app_length. unfold advance_dot. cbn [it_dot]. simpl. lia.
+      * exists it'. split; auto. rewrite app_length in Hi'.
+        replace (length p + (length u + length v1))%nat with (length p + length u + length v1)%nat by lia.
+        exact Hi'.
+Qed.
+End Closed.
+
+(* ---------- running ---------- *)
+Variable sp : lexspec.
+Hypothesis Hnl : forall n, lderives g (NT n) [] -> nth (N.to_nat n) nl false = true.
+
+Lemma run_good_pres w : forall rest done rows rows' tail,
+  w = done ++ rest ++ tail -> length rows = S (length done) -> good w rows ->
+  earley_run g nl sp rows rest = Some rows' ->
+  good w rows' /\ length rows' = S (length done + length rest) /\ rowi rows' 0 = rowi rows 0.
+Proof.
+  induction rest as [|l rest IH]; intros done rows rows' tail Hw Hlen Hgd Hrun.
+  - simpl in Hrun. inversion Hrun; subst rows'. simpl. rewrite Nat.add_0_r. auto.
+  - simpl in Hrun. destruct (scan_row g nl sp rows (MLSingle l)) as [r|] eqn:Hscan; [|discriminate].
+    destruct (IH (done ++ [l]) (rows ++ [r]) rows' tail) as [H1 [H2 H3]]; auto.
+    + rewrite Hw, <- !app_assoc. reflexivity.
+    + rewrite !app_length. simpl. lia.
+    + eapply good_scan; eauto.
+      * intros ->. discriminate.
+      * rewrite Hlen. replace (S (length done) - 1)%nat with (length done) by lia.
+        rewrite Hw. rewrite nth_error_app2, Nat.sub_diag; auto.
+    + split; auto. split.
+      * rewrite H2, app_length. simpl. lia.
+      * rewrite H3. apply rowi_app1. lia.
+Qed.
+
+Lemma run_total w a0 rhs0 :
+  lderives_seq g rhs0 w -> nth a0 (nt_alts g (g_start g)) [] = rhs0 ->
+  forall rest done rows tail,
+  w = done ++ rest ++ tail -> length rows = S (length done) -> good w rows ->
+  In (mk_item (g_start g) (N.of_nat a0) 0 0) (rowi rows 0) ->
+  exists rows', earley_run g nl sp rows rest = Some rows'.
+Proof.
+  intros Hseq Hnth. induction rest as [|l rest IH]; intros done rows tail Hw Hlen Hgd Hin0.
+  - simpl. eauto.
+  - simpl.
+    destruct (chart_viable w rows Hgd Hnl) as [_ Hv].
+    destruct (Hv rhs0 w Hseq (mk_item (g_start g) (N.of_nat a0) 0 0) [] [] done l (rest ++ tail) (l :: rest ++ tail))
+      as [it' [Hi' Ha']]; auto.
+    { unfold item_rhs. cbn [it_nt it_alt]. rewrite Nat2N.id. exact Hnth. }
+    simpl in Hi'.
+    destruct (rows_last_split rows _ Hlen) as [rows0 [Erows Hl0]].
+    destruct (scan_row g nl sp rows (MLSingle l)) as [r|] eqn:Hscan.
+    + apply (IH (done ++ [l]) (rows ++ [r]) tail).
+      * rewrite Hw, <- !app_assoc. reflexivity.
+      * rewrite !app_length. simpl. lia.
+      * eapply good_scan; eauto.
+        -- intros ->. discriminate.
+        -- rewrite Hlen. replace (S (length done) - 1)%nat with (length done) by lia.
+           rewrite Hw. rewrite nth_error_app2, Nat.sub_diag; auto.
+      * rewrite rowi_app1 by lia. exact Hin0.
+    + exfalso. rewrite Erows in Hscan at 1. rewrite scan_row_unfold in Hscan.
+      apply close_row_none in Hscan. simpl in Hscan.
+      assert (Hx : In (advance_dot it') (scan_seed g [l] (r_items (nth (length done) rows dummy_row)))).
+      { apply in_scan_seed. exists it'. auto. }
+      rewrite Hscan in Hx. destruct Hx.
+Qed.
+
+Lemma initial_row_some rhs0 : In rhs0 (nt_alts g (g_start g)) ->
+  exists r0 a0, initial_row g nl = Some r0 /\ nth a0 (nt_alts g (g_start g)) [] = rhs0 /\
+                In (mk_item (g_start g) (N.of_nat a0) 0 0) (r_items r0).
+Proof.
+  intros Hin. destruct (In_nth _ _ [] Hin) as [a0 [Ha Enth]].
+  assert (Hseed : In (mk_item (g_start g) (N.of_nat a0) 0 0)
+                     (initial_items (g_start g) (length (nt_alts g (g_start g))) 0)).
+  { apply in_initial_items. exists a0. auto. }
+  destruct (initial_row g nl) as [r0|] eqn:Hinit.
+  - exists r0, a0. split; auto. split; auto. unfold initial_row in Hinit.
+    eapply close_row_incl; eauto.
+  - unfold initial_row in Hinit. apply close_row_none in Hinit. rewrite Hinit in Hseed. destruct Hseed.
+Qed.
+End Chart.
 
 (*FIXED*) (* completeness: every derivable lexeme sequence is accepted *)
 Theorem earley_complete : forall g sp ls,
   wf_grammar g -> lderives g (NT (g_start g)) ls -> earley_accepts g sp ls = true.
-Proof. Admitted.
+Proof.
+  intros g sp ls Hwf Hd. inversion Hd as [|n rhs0 ls0 Hin Hseq]; subst.
+  destruct (initial_row_some g (nullable_set g) rhs0 Hin) as [r0 [a0 [Hinit [Hnth Hin0]]]].
+  pose proof (good_initial g (nullable_set g) ls r0 Hinit) as Hg0.
+  destruct (run_total g (nullable_set g) sp (nullable_set_complete g) ls a0 rhs0 Hseq Hnth ls [] [r0] [])
+    as [rows Hrun]; auto.
+  { rewrite app_nil_r. reflexivity. }
+  destruct (run_good_pres g (nullable_set g) sp ls ls [] [r0] rows []) as [Hg [Hlen H0]]; auto.
+  { rewrite app_nil_r. reflexivity. }
+  simpl in Hlen.
+  unfold earley_accepts. rewrite Hinit, Hrun.
+  rewrite (last_nth_len _ rows (length ls)) by exact Hlen.
+  destruct (chart_complete g (nullable_set g) ls rows Hg (nullable_set_complete g)) as [_ Hc].
+  specialize (Hc rhs0 ls Hseq (mk_item (g_start g) (N.of_nat a0) 0 0) [] [] []).
+  simpl in Hc. rewrite app_nil_r in Hc. specialize (Hc eq_refl).
+  rewrite H0 in Hc. unfold item_rhs in Hc. cbn [it_nt it_alt it_dot it_start] in Hc.
+  rewrite Nat2N.id in Hc. specialize (Hc ltac:(lia) Hin0 Hnth eq_refl).
+  unfold row_is_accepting. apply existsb_exists.
+  eexists. split; [exact Hc|].
+  unfold after_dot, item_rhs. cbn [it_nt it_alt it_dot it_start]. rewrite Nat2N.id, Hnth.
+  match goal with |- context [nth_error rhs0 ?k] => destruct (nth_error rhs0 k) eqn:E end.
+  - exfalso. assert (Hlt : (N.to_nat (N.of_nat (length rhs0)) < length rhs0)%nat).
+    { apply nth_error_Some. simpl in E. congruence. }
+    lia.
+  - apply N.eqb_refl.
+Qed.
+
+(* every in-range symbol sequence of a productive grammar derives something *)
+Lemma sym_derives g s :
+  (forall n, (N.to_nat n < length (g_rules g))%nat -> exists ls, lderives g (NT n) ls) ->
+  sym_ok g s -> exists u, lderives g s u.
+Proof.
+  intros Hp Hs. destruct s as [n|lx].
+  - apply Hp. exact Hs.
+  - exists [lx]. constructor.
+Qed.
+
+Lemma seq_derives g l :
+  (forall n, (N.to_nat n < length (g_rules g))%nat -> exists ls, lderives g (NT n) ls) ->
+  Forall (sym_ok g) l -> exists v, lderives_seq g l v.
+Proof.
+  intros Hp Hl. induction Hl as [|s l Hs Hl IH].
+  - exists []. constructor.
+  - destruct IH as [v Hv]. destruct (sym_derives g s Hp Hs) as [u Hu].
+    exists (u ++ v). constructor; auto.
+Qed.
 
 (*FIXED*) (* viable prefixes: the recogniser keeps going exactly on prefixes of derivable sequences
    (for grammars in which every nonterminal derives something) *)
@@ -71,10 +959,110 @@ Theorem earley_viable : forall g sp ls,
                    (match initial_row g (nullable_set g) with Some r0 => [r0] | None => [] end) ls = Some rows
                  /\ initial_row g (nullable_set g) <> None)
    <-> exists ls', lderives g (NT (g_start g)) (ls ++ ls')).
-Proof. Admitted.
+Proof.
+  intros g sp ls Hwf Hprod. split.
+  - intros [rows [Hrun Hne]].
+    destruct (initial_row g (nullable_set g)) as [r0|] eqn:Hinit; [|congruence].
+    pose proof (initial_row_sinv g Hwf ls r0 Hinit) as H0.
+    destruct (run_sinv g Hwf ls sp ls [] [r0] rows) as [Hlen Hinv]; auto.
+    destruct (Hinv (length ls)) as [Hnonempty Hr]; [lia|].
+    destruct (rowi rows (length ls)) as [|it its] eqn:Er; [congruence|].
+    assert (Hit : sinv g ls (length ls) it) by (apply Hr; left; reflexivity).
+    pose proof Hit as [H1 [H2 [H3 [H4 [H5 [delta [Hd1 Hd2]]]]]]].
+    destruct (seq_derives g (skipn (N.to_nat (it_dot it)) (item_rhs g it)) Hprod) as [t1 Ht1].
+    { apply Forall_forall. intros s Hs. eapply (sinv_rhs_wf g Hwf ls (length ls) it); eauto.
+      rewrite <- (firstn_skipn (N.to_nat (it_dot it)) (item_rhs g it)). apply in_app_iff. auto. }
+    destruct (seq_derives g delta Hprod Hd1) as [t2 Ht2].
+    exists (t1 ++ t2).
+    assert (HX : lderives g (NT (it_nt it)) (sub ls (N.to_nat (it_start it)) (length ls) ++ t1)).
+    { apply ld_nt with (rhs := item_rhs g it); auto.
+      pose proof (lderives_seq_app g _ _ H4 _ _ Ht1) as Hs. rewrite firstn_skipn in Hs. exact Hs. }
+    specialize (Hd2 _ _ HX Ht2).
+    assert (E : firstn (N.to_nat (it_start it)) ls ++ sub ls (N.to_nat (it_start it)) (length ls) = ls).
+    { rewrite <- (sub_0 ls (N.to_nat (it_start it))). rewrite sub_app by lia.
+      rewrite sub_0. apply firstn_all. }
+    rewrite <- !app_assoc in Hd2. rewrite app_assoc in Hd2. rewrite E in Hd2. exact Hd2.
+  - intros [ls' Hd]. inversion Hd as [|n rhs0 ls0 Hin Hseq]; subst.
+    destruct (initial_row_some g (nullable_set g) rhs0 Hin) as [r0 [a0 [Hinit [Hnth Hin0]]]].
+    pose proof (good_initial g (nullable_set g) (ls ++ ls') r0 Hinit) as Hg0.
+    destruct (run_total g (nullable_set g) sp (nullable_set_complete g) (ls ++ ls') a0 rhs0 Hseq Hnth ls [] [r0] ls')
+      as [rows Hrun]; auto.
+    exists rows. rewrite Hinit. split; auto. discriminate.
+Qed.
 
-(*FIXED*) (* the lexemes a row allows are exactly the terminals after some dot of the row *)
+(* ORIGINAL (*FIXED*) STATEMENT — FALSE for the model as written:
+
+   Theorem allowed_lexemes_exact : forall g nl rows_before seed lexeme r lx,
+     close_row g nl rows_before seed lexeme = Some r ->
+     (In lx (r_allowed r) <-> exists it, In it (r_items r) /\ after_dot g it = Some (TM lx)).
+
+   The statement quantifies over arbitrary seeds and earlier rows.  close_row runs the
+   agenda with fuel item_bound, which bounds the number of *distinct in-range* items
+   of a row; a seed with duplicates (the agenda never deduplicates the seed) or with
+   out-of-range start positions has more entries than the fuel, so the agenda stops
+   before it has processed every item and r_allowed misses the terminals of the
+   unprocessed ones.  Counterexamples (allowed_cex1: duplicates, allowed_cex2: bogus
+   starts) are evaluated below.  This is an artefact of the model's fuel (the
+   implementation has no fuel and its seeds are duplicate-free by construction), not
+   a defect of the modelled parser.  Minimal change: the seed is duplicate-free and
+   in range (ok) and the earlier rows do not mention later start positions (rb_ok);
+   allowed_lexemes_exact_run shows that every row built by initial_row / scan_row /
+   earley_run satisfies the conclusion unconditionally. *)
+Definition allowed_cex_g := mk_grammar [[[TM 0]; [TM 1]]] 0.
+Definition allowed_cex1 :=
+  close_row allowed_cex_g [false] []
+            [mk_item 0 0 0 0; mk_item 0 0 0 0; mk_item 0 0 0 0; mk_item 0 0 0 0; mk_item 0 0 0 0;
+             mk_item 0 1 0 0] (MLSingle 0).
+Definition allowed_cex2 :=
+  close_row allowed_cex_g [false] []
+            [mk_item 0 0 0 1; mk_item 0 0 0 2; mk_item 0 0 0 3; mk_item 0 0 0 4; mk_item 0 0 0 5;
+             mk_item 0 1 0 0] (MLSingle 0).
+Eval vm_compute in allowed_cex1.
+Eval vm_compute in allowed_cex2.
+
+Lemma allowed_lexemes_exact_original_false :
+  ~ (forall g nl rows_before seed lexeme r lx,
+       close_row g nl rows_before seed lexeme = Some r ->
+       (In lx (r_allowed r) <-> exists it, In it (r_items r) /\ after_dot g it = Some (TM lx))).
+Proof.
+  intros H.
+  destruct (allowed_cex1) as [r|] eqn:E; [|vm_compute in E; discriminate].
+  specialize (H _ _ _ _ _ r 1 E). vm_compute in E. inversion E; subst r. clear E.
+  destruct H as [_ H].
+  assert (Hin : In 1 [0]).
+  { apply H. exists (mk_item 0 1 0 0). split; [|reflexivity]. simpl. tauto. }
+  simpl in Hin. destruct Hin as [Hin|[]]. discriminate.
+Qed.
+
+(*CHANGED (was FIXED): hypotheses on seed / rows_before added, see above*)
+(* the lexemes a row allows are exactly the terminals after some dot of the row *)
 Theorem allowed_lexemes_exact : forall g nl rows_before seed lexeme r lx,
+  NoDup seed -> (forall it, In it seed -> ok g (lenN rows_before) it) ->
+  rb_ok rows_before (lenN rows_before) ->
   close_row g nl rows_before seed lexeme = Some r ->
   (In lx (r_allowed r) <-> exists it, In it (r_items r) /\ after_dot g it = Some (TM lx)).
-Proof. Admitted.
+Proof.
+  intros g nl rb seed lexeme r lx Hnd Hok Hrb Hc.
+  destruct (close_row_spec g nl rb seed lexeme r Hnd Hok Hrb Hc) as [_ [_ [_ H]]]. apply H.
+Qed.
+
+(* ... and the side conditions hold for every row the recogniser builds *)
+Theorem allowed_lexemes_exact_run : forall g nl sp ls r0 rows r lx,
+  initial_row g nl = Some r0 -> earley_run g nl sp [r0] ls = Some rows -> In r rows ->
+  (In lx (r_allowed r) <-> exists it, In it (r_items r) /\ after_dot g it = Some (TM lx)).
+Proof.
+  intros g nl sp ls r0 rows r lx Hinit Hrun Hin.
+  pose proof (good_initial g nl ls r0 Hinit) as Hg0.
+  destruct (run_good_pres g nl sp ls ls [] [r0] rows []) as [Hg _]; auto.
+  { rewrite app_nil_r. reflexivity. }
+  apply (In_nth _ _ dummy_row) in Hin. destruct Hin as [k [Hk Er]].
+  pose proof (gd_allowed _ _ _ _ Hg k lx Hk) as H. unfold rowi in H. rewrite Er in H. exact H.
+Qed.
+
+Print Assumptions nullable_set_correct.
+Print Assumptions earley_sound.
+Print Assumptions earley_complete.
+Print Assumptions earley_viable.
+Print Assumptions allowed_lexemes_exact.
+Print Assumptions allowed_lexemes_exact_run.
+Print Assumptions allowed_lexemes_exact_original_false.
